@@ -179,7 +179,68 @@ pub fn build_probe(arena: usize, carrier: usize, misuse: usize, fill: &[u8]) -> 
 }
 
 /// stand-alone probes: (name, program, expected codes; empty = must compile)
+/// auto-trait matrix: a holder of `T` must not be Send/Sync when `T` is not (it hands out `T`/`&T`), and nothing that
+/// carries `&Bump` or points into a chunk is ever Send or Sync. Rejections only: which of these types *are* Send/Sync
+/// is not part of the property.
+pub fn auto_trait_probes() -> Vec<(&'static str, String, &'static [&'static str])> {
+    let mut out: Vec<(&'static str, String, &'static [&'static str])> = Vec::new();
+    // (element type, is Send, is Sync)
+    let elems: [(&str, bool, bool); 6] = [
+        ("std::cell::Cell<u32>", true, false),
+        ("Bump", true, false),
+        ("Bump<8>", true, false),
+        ("std::rc::Rc<u32>", false, false),
+        ("std::sync::MutexGuard<'static, u32>", false, true),
+        ("*const u8", false, false),
+    ];
+    let holders: [&str; 5] = [
+        "bumpalo::collections::vec::IntoIter<'static, {T}>",
+        "bumpalo::collections::vec::Drain<'static, 'static, {T}>",
+        "BBox<'static, {T}>",
+        "BBox<'static, [{T}]>",
+        "BBox<'static, [{T}; 2]>",
+    ];
+    for h in holders.iter() {
+        for (t, send, sync) in elems.iter() {
+            let ty = h.replace("{T}", t);
+            if !*send {
+                let name: &'static str = Box::leak(format!("{ty} is not Send").into_boxed_str());
+                out.push((name, format!("{PRELUDE}fn main() {{ is_send::<{ty}>(); }}"), &["E0277"]));
+            }
+            if !*sync {
+                let name: &'static str = Box::leak(format!("{ty} is not Sync").into_boxed_str());
+                out.push((name, format!("{PRELUDE}fn main() {{ is_sync::<{ty}>(); }}"), &["E0277"]));
+            }
+        }
+    }
+    let never: [&str; 9] = [
+        "BVec<'static, u8>",
+        "BVec<'static, Bump>",
+        "BString<'static>",
+        "bumpalo::collections::vec::DrainFilter<'static, 'static, u8, fn(&mut u8) -> bool>",
+        "bumpalo::collections::vec::Splice<'static, 'static, std::vec::IntoIter<u8>>",
+        "bumpalo::ChunkIter<'static>",
+        "bumpalo::ChunkIter<'static, 8>",
+        "bumpalo::ChunkRawIter<'static>",
+        "bumpalo::ChunkRawIter<'static, 16>",
+    ];
+    for ty in never.iter() {
+        let name: &'static str = Box::leak(format!("{ty} is not Send").into_boxed_str());
+        out.push((name, format!("{PRELUDE}fn main() {{ is_send::<{ty}>(); }}"), &["E0277"]));
+        let name: &'static str = Box::leak(format!("{ty} is not Sync").into_boxed_str());
+        out.push((name, format!("{PRELUDE}fn main() {{ is_sync::<{ty}>(); }}"), &["E0277"]));
+    }
+    out
+}
+
 pub fn fixed_probes() -> Vec<(&'static str, String, &'static [&'static str])> {
+    let p = |body: &str| format!("{PRELUDE}{body}");
+    let mut v = fixed_probes_base();
+    v.extend(auto_trait_probes());
+    v
+}
+
+fn fixed_probes_base() -> Vec<(&'static str, String, &'static [&'static str])> {
     let p = |body: &str| format!("{PRELUDE}{body}");
     vec![
         ("Bump is not Sync", p("fn main() { is_sync::<Bump>(); }"), &["E0277"]),
